@@ -71,7 +71,10 @@ TourLens(inst, pre)    == [g \in 1..inst.A |-> TourLen(inst, pre, g)]
 Objective(inst, sol) == IF inst.obj = "minmax" THEN 0 - MaxSeq(TourLens(inst, sol))
                         ELSE 0 - SumSeq(TourLens(inst, sol))
 
-Pointless(inst, pre, a) == FALSE
+\* documented (docstring of MPDPEnv, "the tour starts and ends at the depot"; the reference implementation offers
+\* nothing else at the first step): a listed solution opens with the start marker.  PrefixOK itself does not insist
+\* on the marker (agent 1 stands at the depot anyway), so an episode is not infeasible merely for omitting it.
+Pointless(inst, pre, a) == ~inst.forced /\ pre = <<>> /\ a # 0
 StepBound(inst) == IF inst.forced THEN NM(inst) - 1 ELSE NM(inst)     \* every node (marker or customer) once
 PadNeeded(inst) == FALSE       \* the agent count is a property of the batch (tensor width): all rows take NM steps
 StepOK(inst, pre, st)   == TRUE
@@ -98,6 +101,8 @@ SumPaired(inst) == SumSeq([p \in 1..inst.H |-> Dist(inst.D, p, p + inst.H)])
 \* 1 means FORBIDDEN (only node 0 allowed); rl4co kept the tensor but its masks mean 1 = ALLOWED: at the first step
 \* everything EXCEPT node 0 is offered -- deliveries and the return markers of all agents included -- and node 0 is
 \* never offered later either (depot columns are closed from step 1 on, only column agent_idx is reopened).
+\* (With the comparison of that branch corrected -- `== 0` instead of `> 0` -- this operator becomes {0} and the
+\* instances with forced = FALSE run clean: checked in a scratch worktree.)
 FirstMask(inst) == 1..(NM(inst) - 1)
 
 \* quirk NeverDone: done = visited.all() over ALL nodes including node 0; together with FirstMaskInverted no
